@@ -80,9 +80,9 @@ def worker(prop, props, widx, n_examples, max_edges, max_ops, features, nontrivi
                      sample=dict(manifest=graphs.manifest(g), ops=ops[:6]) if nt else None)
             res.extra['invocations'] += sim.stats['invocations']
             for f in findings:
-                if f['known'] and known.listed(f['prop'], f['known']):
-                    res.known_hits[f['known']] += 1
-                    res.known_examples.setdefault(f['known'], dict(g=g, ops=ops, finding=f))
+                if f['known'] and all(known.listed(f['prop'], s_) for s_ in f['known'].split('+')):
+                    for s_ in f['known'].split('+'):
+                        res.known_hits[s_] += 1
                     continue
                 state['fail'] = (dict(g=g, ops=ops, runner=runner_name),
                                  "%s: %s %s" % (f['prop'], f['kind'], json.dumps(f['detail'], default=repr)[:1500]))
@@ -117,7 +117,7 @@ def campaign(ck, props, n_examples, max_edges=8, max_ops=8, features=None, nontr
             continue
         # replay 3x outside Hypothesis before believing it
         reps = replay_case(f['case'], props)
-        unknown = [[x for x in r if not (x['known'] and known.listed(x['prop'], x['known']))] for r in reps]
+        unknown = [[x for x in r if not (x['known'] and all(known.listed(x['prop'], s_) for s_ in x['known'].split('+')))] for r in reps]
         if all(unknown):
             ck.violation(f['case'], f['why'])
         else:
@@ -135,7 +135,7 @@ def replay_file(path, prop, props):
     case = j.get('case', j)
     reps = replay_case(case, props)
     known = common.Known()
-    bad = [[x for x in r if not (x['known'] and known.listed(x['prop'], x['known']))] for r in reps]
+    bad = [[x for x in r if not (x['known'] and all(known.listed(x['prop'], s_) for s_ in x['known'].split('+')))] for r in reps]
     for r in bad[:1]:
         for x in r:
             print("finding:", x['prop'], x['kind'], json.dumps(x['detail'], default=repr)[:2000])
